@@ -191,3 +191,22 @@ def run(ctx):
             os_ = hplapi.outcome(P['specification'].parse, st)
             if os_[0] == 'ok':
                 walk(os_[1], ['parse_specification'], st, feats, 'spec')
+
+    # human-written inputs (tests and documentation of the repository), shard 0
+    if ctx.shard == 0:
+        from .. import corpus
+        from ..runner import h64
+
+        for level in ('property', 'specification', 'condition', 'expression'):
+            for origin, text in corpus.accepted(level):
+                feats = {'api:parse_' + level, 'shape:corpus'}
+                ctx.begin_case(feats)
+                o = hplapi.outcome(P[level].parse, text)
+                if o[0] != 'ok':
+                    continue
+                ctx.count('corpus_results')
+                if level == 'specification':
+                    walk(o[1], ['parse_specification'], text, feats, f'corpus:{h64(text)}')
+                else:
+                    names = sorted(S.hpl_free_vars(o[1]))[:2] if level != 'property' else []
+                    explore(o[1], text, feats, f'corpus:{h64(text)}', names, None)
